@@ -39,6 +39,7 @@ def gen_case(rnd, cfg, n_blocks, p_mut, cats, deep=None, **opts):
     from vf import build
     opts = dict(opts)
     mix = opts.pop("dts_mix", None)
+    p_restart = opts.pop("p_restart", 0.0)     # the node is restarted: its chain state is rebuilt from the block store
     p_twin = opts.pop("p_twin", 0.0)           # twins are requested by the full-validation checks (drive), not by other users
     if mix:
         opts["dts"] = mix[rnd.randrange(len(mix))]        # None = the default spread (1 s .. 10^6 s)
@@ -72,6 +73,9 @@ def gen_case(rnd, cfg, n_blocks, p_mut, cats, deep=None, **opts):
         op["form"] = "bytes" if rnd.random() < 0.3 else "obj"
         ops.append(op)
         gen.commit(op, fees)
+        if deep is None and len(ops) >= 3 and rnd.random() < p_restart:
+            ops.append({"label": "restart%d" % len(ops), "parent": "g", "txs": [], "miner": 0,
+                        "restart": [rnd.choice([1, 1, 2, 3, 100]), rnd.randrange(2), rnd.choice([None, None, 1, 2, 3, 4, 5])]})
         if rnd.random() < p_twin:
             # the header of the block just offered, carried by an edited transaction list (same id, different content)
             ops.append({"label": op["label"] + "~", "parent": op["parent"], "twin_of": op["label"], "mut": "twin", "txs": [], "miner": op["miner"],
@@ -83,6 +87,48 @@ def gen_case(rnd, cfg, n_blocks, p_mut, cats, deep=None, **opts):
     elif rnd.random() < 0.5:
         out["horizon"] = 0          # the checkpoint horizon sits AT genesis: height 1 is the first fully validated height
     return out
+
+
+class DiskFull(Exception):
+    pass
+
+
+class FaultyConnection:
+    """sqlite connection whose k-th statement (counting execute/executemany calls on its cursors, 0 = BEGIN) raises, as
+    sqlite does when the disk is full.  A fault in the ENVIRONMENT, not in the code under test."""
+
+    def __init__(self, real, k):
+        self.real, self.k, self.n = real, k, 0
+
+    def cursor(self):
+        conn, cur = self, self.real.cursor()
+
+        class Cur:
+            def execute(self, *a):
+                return conn._do(cur.execute, a)
+
+            def executemany(self, *a):
+                return conn._do(cur.executemany, a)
+
+            def close(self):
+                return cur.close()
+
+            def __getattr__(self, name):
+                return getattr(cur, name)
+        return Cur()
+
+    def _do(self, fn, a):
+        self.n += 1
+        if self.n - 1 == self.k:
+            import sqlite3
+            raise DiskFull(sqlite3.OperationalError("database or disk is full"))
+        return fn(*a)
+
+    def close(self):
+        return self.real.close()
+
+    def __getattr__(self, name):
+        return getattr(self.real, name)
 
 
 class Run:
@@ -153,6 +199,66 @@ class Run:
         self.stat("twins")
         return R.RBlock(base.height, base.prev, base.merkle, base.ts, base.target, base.nonce, base.ev, txs)
 
+    def restart(self, how):
+        """The node is stopped and started again: every block accepted so far is written to a fresh block store (in arrival
+        order, `how[0]` blocks per flush), the store is reopened and the chain state is rebuilt from it by the start-up code.
+        The history then continues on the REBUILT state; the reference ledger is unaffected.  Skipped when two stored blocks
+        share a transaction id (the recorded store finding C08-F1 would leak in) and on fabricated deep bases."""
+        import os
+        from skepticoin import blockstore as BS
+        from skepticoin.scripts import utils as U
+        led = self.world.uni
+        if self.case.get("deep") or isinstance(self.cs, type(None)) or not hasattr(self.cs, "add_block_no_validation"):
+            return
+        blocks = [led.nodes[i].blk for i in led.order[1:]]
+        seen = set()
+        for x in [led.genesis.blk] + blocks:
+            for t in x.txs:
+                if t.id() in seen:
+                    self.stat("restart_skipped_shared_transaction_id")
+                    return
+                seen.add(t.id())
+        d = env.fresh_subdir("restart")
+        path = os.path.join(d, "chain.db")
+        old = BS.DefaultBlockStore.instance
+        try:
+            with env.quiet():
+                store = BS.BlockStore(path)
+            fault_at = how[2] if len(how) > 2 else None
+            for k, x in enumerate(blocks):
+                skb = self.build.to_sk_block(x) if how[1] == 0 else self.Block.deserialize(x.raw())
+                store.add_block_to_buffer(skb)
+                if (k + 1) % how[0] == 0 and (fault_at is None or k + 1 < len(blocks)):
+                    store.flush_blocks_to_disk()
+            if fault_at is not None and store.write_buffer:
+                # the disk fills up during the LAST flush before the process dies: its k-th SQL statement raises
+                store.connection = FaultyConnection(store.connection, fault_at)
+                try:
+                    store.flush_blocks_to_disk()
+                except DiskFull:
+                    self.stat("restart_after_failed_flush")
+                store.connection = store.connection.real
+            else:
+                store.flush_blocks_to_disk()
+            store.close()
+            with env.quiet():
+                store2 = BS.BlockStore(path)
+                BS.DefaultBlockStore.instance = store2
+                cs = U.read_chain_from_disk()
+            store2.close()
+        finally:
+            BS.DefaultBlockStore.instance = old
+        # blocks that did not reach the disk (failed last flush) are downloaded again, through full validation
+        for x in blocks:
+            if x.id() not in cs.block_by_hash:
+                try:
+                    cs = cs.add_block(self.build.to_sk_block(x), x.ts)
+                    self.stat("restart_blocks_downloaded_again")
+                except Exception:
+                    self.stat("restart_redelivery_refused")
+        self.cs = cs
+        self.stat("restarts")
+
     def probe_other_interval_starts(self, op, blk, now):
         """An honest candidate at a retarget boundary was REFUSED.  Which target does the code want instead?  Offer the same
         block with the target the rule would give from every OTHER stored block at the interval-start height (another
@@ -200,6 +306,9 @@ class Run:
     def execute(self):
         b = self.build
         for op in self.case["ops"]:
+            if "restart" in op:
+                self.restart(op["restart"])
+                continue
             if op["parent"] not in self.world.blocks or self.world.blocks[op["parent"]].id() not in self.world.uni.nodes:
                 self.stat("skipped_missing_parent")
                 continue
@@ -362,7 +471,7 @@ def drive(res, seed_, n_hist, tier, focus, cats, pid, n_blocks=(6, 14), p_mut=0.
             case = gen_case(rnd, CFGS[3], min(nb, 8), p_mut, cats, deep=dd, **dict({"p_twin": 0.12}, **opts))
             res.count("deep_histories")
         else:
-            case = gen_case(rnd, cfg, nb, p_mut, cats, **dict({"p_twin": 0.12}, **opts))
+            case = gen_case(rnd, cfg, nb, p_mut, cats, **dict({"p_twin": 0.12, "p_restart": 0.04}, **opts))
         run = Run(case, focus)
         try:
             fails = run.execute()
